@@ -15,6 +15,12 @@ func Run(c *Ctx, prop string) bool {
 var Properties = map[string]func(*Ctx){
 	"C09": C09,
 	"C07": C07,
+	"C06": C06,
+}
+
+func C06(c *Ctx) {
+	R10AuthGate(c)
+	R10PreAuthAssert(c)
 }
 
 func C07(c *Ctx) {
